@@ -1,4 +1,5 @@
 #!/bin/bash
+export VERIF_EVIDENCE_DIR=/verif/build/evidence_seeded   # evidence of runs on a seeded tree must not replace the evidence of /repo itself
 # runs every kept seeded change against the property it was written for; prints one line per seed
 cd /verif
 git -C /repo status --short | grep -q . && { echo "/repo not clean"; exit 2; }
